@@ -231,6 +231,8 @@ func (o *oracles) afterStep() {
 		switch {
 		case strings.HasPrefix(v, "cleanup heap"):
 			rule = "C06/structure"
+		case strings.Contains(v, "queued operations heap out of order"):
+			rule = "C04/structure"
 		case strings.HasPrefix(v, "deduplication map") || strings.Contains(v, "in-flight deduplication map"):
 			rule = "C03/structure"
 		}
